@@ -485,3 +485,60 @@ def reachable_nodes(fi, depth=2):
     if isinstance(n, ast.Name) and len(mod.assigns.get(n.id, [])) == 1:
       nodes.extend(ast.walk(mod.assigns[n.id][0]))
   return nodes
+
+
+def exits_missing_call(fn, pred):
+  """Must-pass-through: the normal exits of `fn` (return statements and the end of the body) that can be reached without a call
+  satisfying pred(call) having been evaluated.  Syntax-directed with the state "may not have called yet": both arms of a test,
+  a loop body zero or more times, raise is no exit, handlers start from the state before the try.  Returns [exit node];
+  the function node itself stands for falling off the end."""
+  missing = []
+
+  def has(node):
+    return any(isinstance(c, ast.Call) and pred(c) for c in ast.walk(node)) if node is not None else False
+
+  def walk(stmts, nd):
+    """nd: the call may not have happened yet.  Returns the same for the fall-through (None: no fall-through)."""
+    for st in stmts:
+      if nd is None:
+        return None
+      if isinstance(st, (ast.FunctionDef, ast.AsyncFunctionDef, ast.ClassDef)):
+        continue
+      if isinstance(st, ast.Return):
+        if nd and not has(st.value):
+          missing.append(st)
+        return None
+      if isinstance(st, ast.Raise):
+        return None
+      if isinstance(st, ast.If):
+        nd0 = nd and not has(st.test)
+        a, b = walk(st.body, nd0), walk(st.orelse, nd0)
+        nd = None if (a is None and b is None) else bool(a) or bool(b)
+        continue
+      if isinstance(st, (ast.For, ast.While)):
+        nd0 = nd and not has(st.iter if isinstance(st, ast.For) else st.test)
+        walk(st.body, nd0)            # exits inside the body are recorded; the body may not run at all
+        r = walk(st.orelse, nd0)
+        nd = nd0 if r is None else (nd0 or r)
+        continue
+      if isinstance(st, ast.With):
+        nd = walk(st.body, nd and not any(has(i.context_expr) for i in st.items))
+        continue
+      if isinstance(st, ast.Try):
+        r = walk(st.body, nd)
+        hs = [walk(h.body, nd) for h in st.handlers]
+        rs = [x for x in [r] + hs if x is not None]
+        nd = None if not rs else any(rs)
+        if st.orelse and nd is not None:
+          nd = walk(st.orelse, nd)
+        if st.finalbody:
+          nd = walk(st.finalbody, bool(nd)) if nd is not None else walk(st.finalbody, True) and None
+        continue
+      if isinstance(st, (ast.Continue, ast.Break)):
+        return nd          # approximated: control stays inside the function
+      if has(st):
+        nd = False
+    return nd
+  if walk(fn.body, True):
+    missing.append(fn)
+  return missing
